@@ -170,8 +170,11 @@ def main(argv=None):
         if rc == 0:
             rc = 2
     # ---- evidence
-    unb = [e for e in obs.values() if not e["bounded"] and e["kind"] not in ("cover", "canary")]
-    bnd = [e for e in obs.values() if e["bounded"] and e["kind"] not in ("cover", "canary")]
+    kf_names = {e["name"] for v in known_hit.values() for e in v}
+    # obligations that reproduce a listed known finding are reported under known_finding_obligations, not as
+    # obligations of the proof (they are, by definition, not discharged)
+    unb = [e for e in obs.values() if not e["bounded"] and e["kind"] not in ("cover", "canary") and e["name"] not in kf_names]
+    bnd = [e for e in obs.values() if e["bounded"] and e["kind"] not in ("cover", "canary") and e["name"] not in kf_names]
     covers = [e for e in obs.values() if e["kind"] == "cover"]
     canaries = [e for e in obs.values() if e["kind"] == "canary"]
     all_vcs = [v for e in obs.values() for v in e["vcs"]]
